@@ -3,5 +3,6 @@ CONSTANTS Tokens = {"a", "b", "c"}
           MaxLen = 4
           MaxCalcs = 6
           ResetOnFailure = TRUE
+          AsyncCopy = FALSE
 INVARIANTS Emit
 CHECK_DEADLOCK FALSE
